@@ -15,6 +15,7 @@ import (
 	"fmt"
 	"go/ast"
 	"go/parser"
+	"go/printer"
 	"go/token"
 	"os"
 	"path/filepath"
@@ -306,6 +307,11 @@ type fn struct {
 	params  []variable // receiver first
 	uses    map[string]bool
 	resTys  []ty // result types, for `nil` in a result tuple
+	// builders: slices made with make([]T, len(X)) that are only filled at the key of a `range X` loop and returned:
+	// filling position by position in order is appending in order (Go name -> text of X)
+	builders      map[string]string
+	makeIsBuilder map[*ast.CallExpr]bool
+	rangeOf       map[string]string // range key variable (Go name) -> text of the expression ranged over, for enclosing loops
 }
 
 var leanKeywords = map[string]bool{"end": true, "at": true, "from": true, "in": true, "do": true, "then": true, "open": true,
@@ -653,7 +659,10 @@ func (f *fn) call(x *ast.CallExpr) ex {
 				return ex{"([] : " + t.lean + ")", true, t} // make(T, 0, cap): the capacity is not modelled
 			}
 		}
-		fail(x.Pos(), "make other than make(T, 0, cap)")
+		if t, ok := typeOfExpr(f.p, x.Args[0]); ok && len(x.Args) == 2 && f.makeIsBuilder[x] {
+			return ex{"([] : " + t.lean + ")", true, t} // an ordered builder (see findBuilders): filled by appending
+		}
+		fail(x.Pos(), "make other than make(T, 0, cap) or an ordered builder")
 	}
 	if name != "" {
 		if _, isVar := f.lookup(strings.SplitN(name, ".", 2)[0]); !isVar {
@@ -770,6 +779,97 @@ func getterField(fd *ast.FuncDecl) string {
 		return ""
 	}
 	return sel.Sel.Name
+}
+
+func exprText(e ast.Expr) string {
+	var b strings.Builder
+	printer.Fprint(&b, token.NewFileSet(), e)
+	return b.String()
+}
+
+// findBuilders recognises `V = make([]T, len(X))` where every other use of V in the function is either the left-hand side
+// `V[k]` of an assignment inside `for k, … := range X` (same X) or a bare result of a `return`. Such a slice is filled position
+// by position in increasing order — once per iteration — and never read: building it is appending in order. Anything else
+// (a read of V[i], len(V), V handed to a call, an assignment at another index) leaves V unrecognised and the function MISSING.
+func (f *fn) findBuilders(body *ast.BlockStmt) {
+	type cand struct {
+		src  string
+		call *ast.CallExpr
+	}
+	cands := map[string]cand{}
+	ast.Inspect(body, func(n ast.Node) bool {
+		as, ok := n.(*ast.AssignStmt)
+		if !ok || len(as.Lhs) != 1 || len(as.Rhs) != 1 {
+			return true
+		}
+		v, ok := as.Lhs[0].(*ast.Ident)
+		ce, ok2 := as.Rhs[0].(*ast.CallExpr)
+		if !ok || !ok2 || calleeName(ce.Fun) != "make" || len(ce.Args) != 2 {
+			return true
+		}
+		ln, ok := ce.Args[1].(*ast.CallExpr)
+		if !ok || calleeName(ln.Fun) != "len" || len(ln.Args) != 1 {
+			return true
+		}
+		cands[v.Name] = cand{exprText(ln.Args[0]), ce}
+		return true
+	})
+	for name, c := range cands {
+		okAll := true
+		allowed := map[*ast.Ident]bool{}
+		var walk func(n ast.Node, ranges map[string]string)
+		walk = func(n ast.Node, ranges map[string]string) {
+			ast.Inspect(n, func(m ast.Node) bool {
+				switch x := m.(type) {
+				case *ast.RangeStmt:
+					if m == n {
+						return true
+					}
+					r2 := map[string]string{}
+					for k, v := range ranges {
+						r2[k] = v
+					}
+					if k, ok := x.Key.(*ast.Ident); ok {
+						r2[k.Name] = exprText(x.X)
+					}
+					walk(x.Body, r2)
+					ast.Inspect(x.X, func(q ast.Node) bool { return true })
+					return false
+				case *ast.AssignStmt:
+					for _, l := range x.Lhs {
+						if ix, ok := l.(*ast.IndexExpr); ok {
+							if v, ok := ix.X.(*ast.Ident); ok && v.Name == name {
+								if k, ok := ix.Index.(*ast.Ident); ok && ranges[k.Name] == c.src {
+									allowed[v] = true
+								}
+							}
+						}
+						if v, ok := l.(*ast.Ident); ok && v.Name == name && len(x.Rhs) == 1 && x.Rhs[0] == ast.Expr(c.call) {
+							allowed[v] = true
+						}
+					}
+				case *ast.ReturnStmt:
+					for _, r := range x.Results {
+						if v, ok := r.(*ast.Ident); ok && v.Name == name {
+							allowed[v] = true
+						}
+					}
+				}
+				return true
+			})
+		}
+		walk(body, map[string]string{})
+		ast.Inspect(body, func(m ast.Node) bool {
+			if v, ok := m.(*ast.Ident); ok && v.Name == name && !allowed[v] {
+				okAll = false
+			}
+			return true
+		})
+		if okAll {
+			f.builders[name] = c.src
+			f.makeIsBuilder[c.call] = true
+		}
+	}
 }
 
 // ------------------------------------------------------------------ errors as values
@@ -988,12 +1088,62 @@ func (f *fn) stmtList(o *w, list []ast.Stmt) {
 				}
 			}
 		}
+		// x, err = call(); if err != nil { return ..., <an error that does not mention err> }
+		//    ==>   let x ← replaceErr call <that error>     (an error value is replaced; a panic is not an error value)
+		if as, ok := st.(*ast.AssignStmt); ok && len(as.Rhs) == 1 && len(as.Lhs) == 2 && i+1 < len(list) {
+			if id, ok := as.Lhs[1].(*ast.Ident); ok && id.Name == "err" {
+				if repl, ok := f.replaces(list[i+1]); ok {
+					if _, isCall := as.Rhs[0].(*ast.CallExpr); isCall {
+						r := f.expr(as.Rhs[0])
+						if r.pure {
+							fail(as.Pos(), "error-returning call translated as pure")
+						}
+						n, _ := f.errName(repl)
+						f.assignTo(o, as.Lhs[0], as.Tok, impure(fmt.Sprintf("(replaceErr %s (.err %q))", r.mon(), n), r.t))
+						i++
+						continue
+					}
+				}
+			}
+		}
 		f.stmt(o, st)
 	}
 }
 
+// replaces reports whether `st` is `if err != nil { return [zero,] E }` with E an error expression that does not mention err,
+// and returns E.
+func (f *fn) replaces(st ast.Stmt) (ast.Expr, bool) {
+	is, ok := st.(*ast.IfStmt)
+	if !ok || is.Init != nil || is.Else != nil || len(is.Body.List) != 1 || !f.isErrNotNil(is.Cond) {
+		return nil, false
+	}
+	rs, ok := is.Body.List[0].(*ast.ReturnStmt)
+	if !ok || len(rs.Results) == 0 || f.returnsErr(rs) {
+		return nil, false
+	}
+	for _, r := range rs.Results[:len(rs.Results)-1] {
+		if !isNilIdent(r) {
+			return nil, false
+		}
+	}
+	return rs.Results[len(rs.Results)-1], true
+}
+
 // assignTo emits `lhs := r` or `let mut lhs := r`.
 func (f *fn) assignTo(o *w, lhs ast.Expr, tok token.Token, r ex) {
+	if ix, ok := lhs.(*ast.IndexExpr); ok {
+		// V[k] = r where V is a builder and k the key of the enclosing `range X` loop over the X it was sized by
+		if v, ok := ix.X.(*ast.Ident); ok {
+			if src, isB := f.builders[v.Name]; isB {
+				if k, ok := ix.Index.(*ast.Ident); ok && f.rangeOf[k.Name] == src {
+					vv, _ := f.lookup(v.Name)
+					o.line("%s := %s ++ [%s]", vv.lean, vv.lean, r.code)
+					return
+				}
+			}
+		}
+		fail(lhs.Pos(), "assignment to an index expression")
+	}
 	id, ok := lhs.(*ast.Ident)
 	if !ok {
 		fail(lhs.Pos(), "assignment to %T", lhs)
@@ -1301,6 +1451,11 @@ func assignedIn(nodes ...ast.Node) map[string]bool {
 						if id, ok := l.(*ast.Ident); ok {
 							out[id.Name] = true
 						}
+						if ix, ok := l.(*ast.IndexExpr); ok { // V[k] = …: V changes
+							if id, ok := ix.X.(*ast.Ident); ok {
+								out[id.Name] = true
+							}
+						}
 					}
 				} else {
 					// `:=` may assign to an existing variable of an enclosing scope only when mixed with new names
@@ -1327,6 +1482,9 @@ func (f *fn) forStmt(o *w, init ast.Stmt, cond ast.Expr, post ast.Stmt, body *as
 	var rngSeq ex
 	var rngIdx variable
 	if rng != nil {
+		if k, ok := rng.Key.(*ast.Ident); ok && k.Name != "_" {
+			f.rangeOf[k.Name] = exprText(rng.X)
+		}
 		rngSeq = f.expr(rng.X)
 		if !rngSeq.pure || rngSeq.t.elem().lean == "" {
 			fail(pos, "range over %s", rngSeq.t.lean)
@@ -1549,7 +1707,8 @@ func translate(tg *target) (text string, err error) {
 	if fd == nil || fd.Body == nil {
 		return "", fmt.Errorf("function not found")
 	}
-	f := &fn{tg: tg, p: p, decl: fd, uses: map[string]bool{}}
+	f := &fn{tg: tg, p: p, decl: fd, uses: map[string]bool{}, builders: map[string]string{}, rangeOf: map[string]string{}, makeIsBuilder: map[*ast.CallExpr]bool{}}
+	f.findBuilders(fd.Body)
 	f.push()
 	// receiver and parameters
 	addParam := func(name string, te ast.Expr) {
@@ -1646,6 +1805,18 @@ func translate(tg *target) (text string, err error) {
 			f.named = append(f.named, v)
 			o.line("let mut %s : %s := %s", v.lean, resTys[i].lean, zero)
 		}
+	}
+	if f.resKind == "valueErr" && len(resNames) == 2 && resNames[0] != "" {
+		// (res T, err error): the value result is a local with its zero value; bare `return` is not supported for this kind
+		zero := map[string]string{"Int": "(0 : Int)", "Bool": "false", "Bytes": "([] : Bytes)"}[resTys[0].lean]
+		if zero == "" && strings.HasPrefix(resTys[0].lean, "(List ") {
+			zero = "([] : " + resTys[0].lean + ")"
+		}
+		if zero == "" {
+			fail(fd.Pos(), "zero value of named result %s", resNames[0])
+		}
+		v := f.declare(resNames[0], resTys[0])
+		o.line("let mut %s : %s := %s", v.lean, resTys[0].lean, zero)
 	}
 	f.stmtList(o, fd.Body.List)
 	pos := fset.Position(fd.Pos())
